@@ -1423,11 +1423,15 @@ def _is_pure_accessor(c: ast.Call) -> bool:
 
 
 def _in_comprehension(node, root) -> bool:
-    n = getattr(node, "_parent", None)
+    """node is evaluated once PER ELEMENT of a comprehension (element expression, condition, inner iterable) - not in the first iterable, which is
+    evaluated once whether or not it was named before"""
+    n, child = getattr(node, "_parent", None), node
     while n is not None and n is not root:
         if isinstance(n, (ast.ListComp, ast.DictComp, ast.SetComp, ast.GeneratorExp)):
-            return True
-        n = getattr(n, "_parent", None)
+            first = n.generators[0]
+            if not (child is first and any(x is node for x in ast.walk(first.iter))):
+                return True
+        child, n = n, getattr(n, "_parent", None)
     return False
 
 
